@@ -187,7 +187,9 @@ def replay_failing(family, ctx, failing, candidates, seed, max_in_domain=60):
         if src == "random" and in_domain >= max_in_domain:
             break
         tried += 1
-        res, R = concrete_eval(family.fn, assignment, "mp")
+        # (a family whose obligations are about IEEE rounding replays on the unmodified float64 backend)
+        primary = getattr(family, "replay_mode", "mp")
+        res, R = concrete_eval(family.fn, assignment, primary)
         if "__skip__" in res:
             continue
         in_domain += 1
@@ -223,8 +225,8 @@ def replay_failing(family, ctx, failing, candidates, seed, max_in_domain=60):
             "candidate_source": src,
             "inputs": _fmt_assignment(R),
             "assignment": {k: str(v) for k, v in assignment.items()},
-            "reproduces_mp50": True,
-            "reproduces_float64": f64,
+            "reproduces_mp50": primary == "mp",
+            "reproduces_float64": True if primary == "f64" else f64,
             "candidates_tried": tried,
         }
     return None
